@@ -262,3 +262,203 @@ Theorem C02_genes_repair_effect : forall s, GInv s ->
 Proof. exact repair_effect. Qed.
 Print Assumptions C02_genes_repair_effect.
 End GenesKernel.
+
+(* ================= kernel III: groups and identifier changes (coq/theories/Groups) =================
+   The clauses of C02 about groups and identifiers -- identifiers unique in every DictList, every listed object
+   belongs to the model and is the one found by looking up its identifier, every member of a group of the model is
+   an object of the model (no dangling member) -- are an invariant of a kernel of group edits (Group.add_members /
+   remove_members / kind, Model.add_groups / remove_groups), of what remove_reactions / remove_metabolites /
+   remove_genes do to membership, and of the identifier setter of reactions, metabolites, genes and groups.
+   The theorems are about the repaired code (variant `vfix`, fixes/groups-*.patch, fixes/object-id-*.patch);
+   for the code as found three refutations are proved below (the check sees the same on the real objects). *)
+From Cobra.Groups Require Model Inv Proofs Effects Examples.
+Module GroupsKernel.
+Import Cobra.Groups.Model Cobra.Groups.Inv Cobra.Groups.Proofs Cobra.Groups.Effects Cobra.Groups.Examples.
+
+Theorem C02_groups_meaning : forall s, Inv s ->
+  (forall c, NoDup (ids s c) /\ NoDup (lst s c)) /\
+  (forall c x, In x (lst s c) -> omod s c x = true /\ lookup s c (oid s c x) = Some x) /\
+  (forall g c x, In g (lst s CP) -> In (c, x) (members s g) ->
+     In x (lst s c) /\ omod s c x = true /\ lookup s c (oid s c x) = Some x) /\
+  (forall y g, In g (assoc_groups s y) <-> In g (lst s CP) /\ In y (members s g)).
+Proof. exact Inv_meaning. Qed.
+Print Assumptions C02_groups_meaning.
+
+Theorem C02_groups_init : forall rs ms gs idr idm idg idp sto0 mb0 rg0 gb0,
+  NoDup (map (fun x => assoc x idr x) rs) -> NoDup (map (fun x => assoc x idm x) ms) ->
+  NoDup (map (fun x => assoc x idg x) gs) ->
+  Inv (init rs ms gs idr idm idg idp sto0 mb0 rg0 gb0).
+Proof. exact init_Inv. Qed.
+Print Assumptions C02_groups_init.
+
+Theorem C02_groups_step : forall s o, Inv s -> op_ok s o -> Inv (fst (step vfix s o)).
+Proof. exact step_Inv. Qed.
+Print Assumptions C02_groups_step.
+
+Theorem C02_groups_history : forall ops s, Inv s -> Proofs.ok_run s ops -> Inv (run vfix ops s).
+Proof. exact run_Inv. Qed.
+Print Assumptions C02_groups_history.
+
+(* non-vacuity: a history using every operation (objects brought in by add_groups, refused identifiers, orphan and
+   destructive removal, nested groups) meets the conditions and ends non-trivially *)
+Example C02_groups_history_nonvacuous : Proofs.ok_run s0 hist /\
+  (let s := run vfix hist s0 in
+   lst s CR = [3] /\ lst s CM = [1; 3] /\ lst s CG = [0; 2] /\ lst s CP = [1] /\
+   map (oid s CR) [0; 1; 2; 3] = [7; 200; 2; 3] /\ oid s CM 2 = 203 /\ oid s CG 0 = 5 /\ oid s CP 0 = 4 /\ oid s CP 1 = 1 /\
+   members s 0 = [(CM, 1); (CG, 0)] /\ members s 1 = [(CR, 3); (CG, 2)] /\ kind s 1 = 2 /\
+   map snd (map (step vfix (run vfix (firstn 4 hist) s0)) [AddGroups [1; 1]]) = [RaiseValueError]).
+Proof. exact (conj hist_ok hist_nontrivial). Qed.
+Print Assumptions C02_groups_history_nonvacuous.
+
+(* the code as found breaks the invariant (known findings of the check; model and implementation agree) *)
+Theorem C02_groups_remove_groups_nested_refuted :
+  Inv s_nested /\ ~ Inv (fst (step vimpl s_nested (RemoveGroups [0]))).
+Proof. exact remove_groups_nested_refuted. Qed.
+Print Assumptions C02_groups_remove_groups_nested_refuted.
+Theorem C02_groups_orphan_gene_refuted :
+  Inv s_orphan /\ ~ Inv (fst (step vimpl s_orphan (RemoveRxn 1 true))).
+Proof. exact orphan_gene_refuted. Qed.
+Print Assumptions C02_groups_orphan_gene_refuted.
+Theorem C02_groups_add_groups_gene_refuted :
+  Inv s_addgene /\ ~ Inv (fst (step vimpl s_addgene (AddGroups [0]))).
+Proof. exact add_groups_gene_refuted. Qed.
+Print Assumptions C02_groups_add_groups_gene_refuted.
+(* and the condition on Group.add_members (members are objects of the model) cannot be dropped *)
+Theorem C02_groups_add_members_outside_refuted :
+  let s := run vfix [AddGroups [0]] s0 in Inv s /\ ~ Inv (fst (step vfix s (AddMembers 0 [(CM, 3)]))).
+Proof. exact add_members_outside_refuted. Qed.
+Print Assumptions C02_groups_add_members_outside_refuted.
+
+(* ---- documented effect of each edit, and nothing else ---- *)
+Theorem C02_groups_set_id_effect : forall c x i s, Inv s ->
+  let '(s', r) := set_id c x i s in
+  (i = oid s c x -> s' = s /\ r = Ok) /\
+  (i <> oid s c x -> i = id_nonstr -> s' = s /\ r = RaiseTypeError) /\
+  (i <> oid s c x -> i <> id_nonstr -> omod s c x = true ->
+     (In i (ids s c) \/ (solver_named c = true /\ bad_name i = true)) -> s' = s /\ r = RaiseValueError) /\
+  (i <> oid s c x -> i <> id_nonstr ->
+     (omod s c x = true -> ~ In i (ids s c) /\ (solver_named c = true -> bad_name i = false)) ->
+     r = Ok /\ oid s' c x = i /\ (forall c' x', (c', x') <> (c, x) -> oid s' c' x' = oid s c' x') /\
+     lst s' = lst s /\ omod s' = omod s /\ members s' = members s /\ kind s' = kind s /\
+     sto s' = sto s /\ mback s' = mback s /\ rgenes s' = rgenes s /\ gback s' = gback s /\
+     (In x (lst s c) -> lookup s' c i = Some x /\ lookup s' c (oid s c x) = None) /\
+     (forall y, In y (lst s c) -> y <> x -> lookup s' c (oid s c y) = Some y) /\
+     Inv s').
+Proof. exact set_id_effect. Qed.
+Print Assumptions C02_groups_set_id_effect.
+
+(* escape_ID = the identifier setter for every metabolite, reaction and gene of the model (f = _escape_str_id on
+   identifier numbers, evaluated by the real function in the check) *)
+Theorem C02_groups_escape_ids_effect : forall tbl s, Inv s ->
+  let f := fun i => assoc i tbl i in
+  let '(s', r) := escape_ids tbl s in
+  lst s' = lst s /\ omod s' = omod s /\ members s' = members s /\ kind s' = kind s /\ sto s' = sto s /\ rgenes s' = rgenes s /\
+  (forall x, oid s' CP x = oid s CP x) /\ (forall c x, ~ In x (lst s c) -> oid s' c x = oid s c x) /\
+  (r = Ok -> forall c x, c <> CP -> In x (lst s c) -> oid s' c x = f (oid s c x) /\ lookup s' c (f (oid s c x)) = Some x) /\
+  Inv s'.
+Proof. exact escape_ids_effect. Qed.
+Print Assumptions C02_groups_escape_ids_effect.
+
+Theorem C02_groups_set_bounds_effect : forall r lb ub s,
+  fst (set_bounds r lb ub s) = s /\ snd (set_bounds r lb ub s) = if ub <? lb then RaiseValueError else Ok.
+Proof. exact set_bounds_effect. Qed.
+Print Assumptions C02_groups_set_bounds_effect.
+
+Theorem C02_groups_add_members_effect : forall g l s,
+  let s' := add_members g l s in
+  (forall y, In y (members s' g) <-> In y (members s g) \/ In y l) /\
+  (forall g', g' <> g -> members s' g' = members s g') /\
+  lst s' = lst s /\ oid s' = oid s /\ omod s' = omod s /\ kind s' = kind s /\
+  sto s' = sto s /\ mback s' = mback s /\ rgenes s' = rgenes s /\ gback s' = gback s.
+Proof. exact add_members_effect. Qed.
+Print Assumptions C02_groups_add_members_effect.
+
+Theorem C02_groups_remove_members_effect : forall g l s,
+  let s' := remove_members g l s in
+  (forall y, In y (members s' g) <-> In y (members s g) /\ ~ In y l) /\
+  (forall g', g' <> g -> members s' g' = members s g') /\
+  lst s' = lst s /\ oid s' = oid s /\ omod s' = omod s /\ kind s' = kind s /\
+  sto s' = sto s /\ mback s' = mback s /\ rgenes s' = rgenes s /\ gback s' = gback s.
+Proof. exact remove_members_effect. Qed.
+Print Assumptions C02_groups_remove_members_effect.
+
+Theorem C02_groups_kind_effect : forall g k s,
+  let '(s', r) := set_kind_op g k s in
+  (0 <= k <= 2 -> r = Ok /\ kind s' g = k /\ (forall g', g' <> g -> kind s' g' = kind s g') /\
+     lst s' = lst s /\ oid s' = oid s /\ omod s' = omod s /\ members s' = members s /\
+     sto s' = sto s /\ mback s' = mback s /\ rgenes s' = rgenes s /\ gback s' = gback s) /\
+  (~ 0 <= k <= 2 -> r = RaiseValueError /\ s' = s).
+Proof. exact set_kind_effect. Qed.
+Print Assumptions C02_groups_kind_effect.
+
+Theorem C02_groups_add_groups_effect : forall l s,
+  let pruned := filter (fun g => negb (has_id s CP (oid s CP g))) l in
+  let '(s', r) := add_groups vfix l s in
+  (nodupb (map (oid s CP) pruned) = false -> s' = s /\ r = RaiseValueError) /\
+  (nodupb (map (oid s CP) pruned) = true -> s' = fold_left (add_group vfix) pruned s /\ r = Ok).
+Proof. exact add_groups_effect. Qed.
+Print Assumptions C02_groups_add_groups_effect.
+
+Theorem C02_groups_add_group_effect : forall s g, Inv s -> ~ In (oid s CP g) (ids s CP) ->
+  members_okb (set_omod CP g true s) (members s g) = true ->
+  let s' := add_group vfix s g in
+  lst s' CP = lst s CP ++ [g] /\ omod s' CP g = true /\
+  (forall c x, In x (lst s c) -> In x (lst s' c)) /\
+  (forall c x, c <> CP -> In x (lst s' c) -> In x (lst s c) \/ In (c, x) (members s g)) /\
+  (forall y, In y (members s g) -> in_modelP s' y) /\
+  (forall c x, oid s' c x = oid s c x) /\ (forall p, members s' p = members s p) /\
+  (forall p, kind s' p = kind s p) /\ (forall c x, omod s c x = true -> omod s' c x = true) /\ Inv s'.
+Proof. exact add_group_effect. Qed.
+Print Assumptions C02_groups_add_group_effect.
+
+Theorem C02_groups_remove_groups_effect : forall g s, Inv s ->
+  let '(s', r) := remove_groups vfix [g] s in
+  (~ In (oid s CP g) (ids s CP) -> s' = s /\ r = Ok) /\
+  (In (oid s CP g) (ids s CP) -> ~ In g (lst s CP) -> s' = s /\ r = RaiseValueError) /\
+  (In g (lst s CP) -> r = Ok /\ lst s' CP = rem g (lst s CP) /\ omod s' CP g = false /\
+     (forall g', members s' g' = if memz g' (rem g (lst s CP)) then remr (CP, g) (members s g') else members s g') /\
+     (forall c, c <> CP -> lst s' c = lst s c) /\ oid s' = oid s /\
+     (forall c x, (c, x) <> (CP, g) -> omod s' c x = omod s c x) /\ kind s' = kind s /\
+     sto s' = sto s /\ mback s' = mback s /\ rgenes s' = rgenes s /\ gback s' = gback s).
+Proof. exact remove_group_effect. Qed.
+Print Assumptions C02_groups_remove_groups_effect.
+
+Theorem C02_groups_remove_reactions_effect : forall r orph s, Inv s ->
+  let s' := remove_rxn vfix r orph s in
+  (~ In r (lst s CR) -> s' = s) /\
+  (In r (lst s CR) ->
+     ~ In r (lst s' CR) /\ (forall g, In g (lst s' CP) -> ~ In (CR, r) (members s' g)) /\
+     removal_frame s s' /\
+     (orph = false ->
+        lst s' CR = rem r (lst s CR) /\ (forall c, c <> CR -> lst s' c = lst s c) /\
+        (forall g, members s' g = if memz g (lst s CP) then remr (CR, r) (members s g) else members s g) /\
+        omod s' CR r = false /\ (forall c x, (c, x) <> (CR, r) -> omod s' c x = omod s c x) /\
+        sto s' = sto s /\ rgenes s' = rgenes s) /\
+     Inv s').
+Proof. exact remove_reactions_effect. Qed.
+Print Assumptions C02_groups_remove_reactions_effect.
+
+Theorem C02_groups_remove_metabolites_effect : forall m d s, Inv s ->
+  let s' := remove_met vfix m d s in
+  (~ In m (lst s CM) -> s' = s) /\
+  (In m (lst s CM) ->
+     ~ In m (lst s' CM) /\ (forall g, In g (lst s' CP) -> ~ In (CM, m) (members s' g)) /\
+     removal_frame s s' /\
+     (d = false ->
+        lst s' CM = rem m (lst s CM) /\ (forall c, c <> CM -> lst s' c = lst s c) /\
+        (forall g, members s' g = if memz g (lst s CP) then remr (CM, m) (members s g) else members s g) /\
+        omod s' CM m = false /\ (forall c x, (c, x) <> (CM, m) -> omod s' c x = omod s c x)) /\
+     Inv s').
+Proof. exact remove_metabolites_effect. Qed.
+Print Assumptions C02_groups_remove_metabolites_effect.
+
+Theorem C02_groups_remove_genes_effect : forall l rr s, Inv s ->
+  let '(s', r) := remove_genes vfix l rr s in
+  (lookup_all s CG l = None -> s' = s /\ r = RaiseKeyError) /\
+  (forall gs, lookup_all s CG l = Some gs ->
+     r = Ok /\
+     (forall g, In g gs -> ~ In g (lst s' CG) /\ forall p, In p (lst s' CP) -> ~ In (CG, g) (members s' p)) /\
+     removal_frame s s' /\ Inv s').
+Proof. exact remove_genes_effect. Qed.
+Print Assumptions C02_groups_remove_genes_effect.
+End GroupsKernel.
